@@ -160,9 +160,13 @@ func runBenign(self, repo, verif, oracle, prop string, e benignEdit) selfResult 
 			break
 		}
 	}
-	if e.KnownAlarm != nil && strings.Contains(txt, "rule "+e.KnownAlarm.Rule+" ") {
-		r.Status = "known-alarm"
-		r.Detail = e.KnownAlarm.Rule + ": " + e.KnownAlarm.Why
+	if e.KnownAlarm != nil {
+		for _, rule := range strings.Split(e.KnownAlarm.Rule, ",") {
+			if strings.Contains(txt, "rule "+strings.TrimSpace(rule)+" ") || strings.Contains(txt, " "+strings.TrimSpace(rule)+": ") {
+				r.Status = "known-alarm"
+				r.Detail = e.KnownAlarm.Rule + ": " + e.KnownAlarm.Why
+			}
+		}
 	}
 	return r
 }
